@@ -722,6 +722,162 @@ pub fn menu_output() -> String {
     serde_json::to_string(&out).unwrap()
 }
 
+/// Same token geometry, different words: every harvested seed followed by its *shape twin* (every
+/// letter replaced, all spans identical) on ONE long-lived LintGroup; both results must equal
+/// those of a brand-new LintGroup. A memo keyed by position instead of content shows here.
+fn c05_shape_twins(report: &mut Report, tier: Tier) {
+    let h = crate::harvest::harvest();
+    let seeds: Vec<String> = h.seeds.iter().filter(|s| s.chars().count() <= 160).step_by(tier.pick(2, 1)).cloned().collect();
+    let twin = |s: &str| -> String { s.chars().map(|c| if c.is_uppercase() { 'O' } else if c.is_alphabetic() { 'o' } else { c }).collect() };
+    let twin2 = |s: &str| -> String {
+        // a second twin made of real words where lengths allow (red car / big dog / tall tree ...)
+        let fill = |n: usize, cap: bool| -> String {
+            let w = match n { 1 => "a", 2 => "of", 3 => "red", 4 => "tall", 5 => "green", 6 => "yellow", 7 => "younger", 8 => "mountain", _ => "" };
+            let mut w = if w.is_empty() { "o".repeat(n) } else { w.to_string() };
+            if cap { w = w[..1].to_uppercase() + &w[1..]; }
+            w
+        };
+        let mut out = String::new();
+        let cs: Vec<char> = s.chars().collect();
+        let mut i = 0;
+        while i < cs.len() {
+            if cs[i].is_alphabetic() && cs[i].is_ascii() {
+                let mut j = i;
+                while j < cs.len() && cs[j].is_alphabetic() && cs[j].is_ascii() { j += 1; }
+                out.push_str(&fill(j - i, cs[i].is_uppercase()));
+                i = j;
+            } else {
+                out.push(cs[i]);
+                i += 1;
+            }
+        }
+        out
+    };
+    let dict = product_dict();
+    let n = seeds.len() as u64;
+    let res = par_chunks(n, 40, ncpu(), |s, e| {
+        let mut warm = LintGroup::new_curated(dict.clone(), Dialect::American);
+        let mut viols: Vec<Violation> = vec![];
+        let mut steps = 0u64;
+        for i in s..e {
+            let seed = &seeds[i as usize];
+            for (which, text) in [("seed", seed.clone()), ("letter-twin", twin(seed)), ("seed-again", seed.clone()), ("word-twin", twin2(seed))] {
+                steps += 1;
+                let r = catch(|| {
+                    let doc = Document::new(&text, &PlainEnglish, &*dict);
+                    let got: Vec<LKey> = warm.lint(&doc).iter().map(lkey).collect();
+                    let mut fresh = LintGroup::new_curated(dict.clone(), Dialect::American);
+                    let want: Vec<LKey> = fresh.lint(&doc).iter().map(lkey).collect();
+                    (got, want)
+                });
+                let Ok((got, want)) = r else {
+                    warm = LintGroup::new_curated(dict.clone(), Dialect::American);
+                    continue;
+                };
+                if got != want && viols.len() < 4 {
+                    viols.push(Violation { sig: "shape-twin:warm-linter-differs-from-fresh".into(), case: json!({"engine":"E2","object":"LintGroup","history": ["lint(seed)", "lint(letter twin)", "lint(seed)", "lint(word twin)"], "seed": seed, "failing_step": which, "text": text}), detail: json!({"warm": got, "fresh": want}) });
+                }
+            }
+        }
+        (steps, viols)
+    });
+    let mut steps = 0;
+    for (st, vs) in res {
+        steps += st;
+        for v in vs {
+            report.violation(v);
+        }
+    }
+    report.set("shape_twin_lint_steps", steps);
+}
+
+/// The same clauses under two dictionaries and four parser compositions (plain, Markdown, each
+/// optionally behind IsolateEnglish), every ordered sequence up to a depth on ONE thread, each step
+/// compared with the same (text, parser, dictionary) evaluated on a fresh thread: per-thread or
+/// global memos that forget the dictionary or the parser show here.
+fn c05_dictionaries_and_parsers(report: &mut Report, tier: Tier) {
+    use harper_core::parsers::IsolateEnglish;
+    use harper_core::{MutableDictionary, WordMetadata};
+    const TEXTS_D: [&str; 4] = [
+        "Ask Zorblax about the the report.",
+        "Zorblax qzxv brimtol the the cat sat.",
+        "Ceci n'est pas une phrase the the anglaise. This one is an test.",
+        "The web cam and the `cde` there there.",
+    ];
+    let texts = TEXTS_D;
+    let d0 = product_dict();
+    let d1: Arc<MergedDictionary> = {
+        let mut user = MutableDictionary::new();
+        for w in ["Zorblax", "qzxv", "brimtol", "cde"] {
+            user.append_word(w.chars().collect::<Vec<_>>(), WordMetadata::default());
+        }
+        let mut m = MergedDictionary::new();
+        m.add_dictionary(FstDictionary::curated());
+        m.add_dictionary(Arc::new(user));
+        Arc::new(m)
+    };
+    let dicts = [d0, d1];
+    let eval = move |ti: usize, di: usize, pi: usize, dicts: &[Arc<MergedDictionary>; 2]| -> Vec<LKey> {
+        let dict = dicts[di].clone();
+        let base: Box<dyn Parser> = if pi % 2 == 0 { Box::new(PlainEnglish) } else { Box::new(Markdown::default()) };
+        let parser: Box<dyn Parser> = if pi >= 2 { Box::new(IsolateEnglish::new(base, dict.clone())) } else { base };
+        let doc = Document::new(TEXTS_D[ti], &parser, &*dict);
+        let mut g = LintGroup::new_curated(dict.clone(), Dialect::American);
+        g.lint(&doc).iter().map(lkey).collect()
+    };
+    // alphabet: (text, dictionary, parser)
+    let mut alpha: Vec<(usize, usize, usize)> = vec![];
+    for ti in 0..texts.len() {
+        for di in 0..2 {
+            for pi in 0..4 {
+                alpha.push((ti, di, pi));
+            }
+        }
+    }
+    // reference: each letter on its own fresh thread
+    let reference: Vec<Vec<LKey>> = alpha
+        .iter()
+        .map(|(ti, di, pi)| {
+            let (ti, di, pi) = (*ti, *di, *pi);
+            let dicts = dicts.clone();
+            std::thread::spawn(move || catch(|| eval(ti, di, pi, &dicts)).unwrap_or_default()).join().unwrap_or_default()
+        })
+        .collect();
+    let depth = tier.pick(2, 3);
+    let seqs = sequences(alpha.len(), depth);
+    let n = seqs.len() as u64;
+    // each history on its own fresh thread (thread-local state starts empty, then accumulates)
+    let res = par_chunks(n, 16, ncpu(), |s, e| {
+        let mut viols: Vec<Violation> = vec![];
+        let mut steps = 0u64;
+        for i in s..e {
+            let seq = seqs[i as usize].clone();
+            if seq.is_empty() {
+                continue;
+            }
+            let dicts2 = dicts.clone();
+            let alpha2 = alpha.clone();
+            let outs: Vec<Vec<LKey>> = std::thread::spawn(move || seq.iter().map(|a| { let (ti, di, pi) = alpha2[*a]; catch(|| eval(ti, di, pi, &dicts2)).unwrap_or_default() }).collect()).join().unwrap_or_default();
+            for (k, a) in seqs[i as usize].iter().enumerate() {
+                steps += 1;
+                if outs.get(k) != Some(&reference[*a]) && viols.len() < 4 {
+                    let name = |a: &usize| { let (ti, di, pi) = alpha[*a]; format!("lint({:?}, dictionary {}, parser {})", texts[ti], ["curated", "curated+user words"][di], ["plain", "markdown", "isolate(plain)", "isolate(markdown)"][pi]) };
+                    viols.push(Violation { sig: "same-thread-history-changes-result".into(), case: json!({"engine":"E2","object":"Document+LintGroup on one thread","history": seqs[i as usize].iter().map(name).collect::<Vec<_>>(), "failing_step": k}), detail: json!({"got": outs.get(k), "on_a_fresh_thread": reference[*a]}) });
+                }
+            }
+        }
+        (steps, viols)
+    });
+    let mut steps = 0;
+    for (st, vs) in res {
+        steps += st;
+        for v in vs {
+            report.violation(v);
+        }
+    }
+    report.set("dictionary_parser_history_steps", steps);
+}
+
 pub fn run_c05(tier: Tier) -> i32 {
     let mut report = Report::new("C05", tier, "model_checking");
     let ops = gops(tier);
@@ -774,6 +930,8 @@ pub fn run_c05(tier: Tier) -> i32 {
     }
     report.set("histories", n);
     report.set("lint_steps_on_a_warm_linter", hits);
+    c05_shape_twins(&mut report, tier);
+    c05_dictionaries_and_parsers(&mut report, tier);
 
     // threads: every assignment of 4 menu slices to 2 and 3 free-running OS threads, each with its
     // own LintGroup, must serialise to the same output as one thread
